@@ -981,7 +981,7 @@ func c02r3(p *Program, r *Report) {
 					}
 				}
 			}
-			dec, okDec := decodingOf(ri, sizeE)
+			dec, okDec := decodingOfP(p, ri, sizeE)
 			if !okDec {
 				r.Unresolved("readCollectionSize: the size expression %s is neither a shift chain nor an encoding/binary call", exprStr(sizeE))
 				continue
